@@ -355,6 +355,9 @@ func (c *Ctx) Entries(names ...string) []*ssa.Function {
 	for _, n := range names {
 		fn := c.P.MastFunc(n)
 		if fn == nil {
+			fn = roleFunc(c.P, n)
+		}
+		if fn == nil {
 			c.AnchorMissing("function " + n)
 			continue
 		}
@@ -366,6 +369,12 @@ func (c *Ctx) Entries(names ...string) []*ssa.Function {
 // MustFunc resolves one function of package mast or records a missing anchor.
 func (c *Ctx) MustFunc(name string) *ssa.Function {
 	fn := c.P.MastFunc(name)
+	if fn == nil {
+		if fn = roleFunc(c.P, name); fn != nil {
+			c.Note("anchor %s resolved by signature to %s", name, ir.FuncName(fn))
+			return fn
+		}
+	}
 	if fn == nil {
 		c.AnchorMissing("function " + name)
 	}
